@@ -243,8 +243,9 @@ def pairs_of(v: V) -> List[Tuple[V, V]]:
     return [(p.v[0], p.v[1]) for p in v.fields["pairs"].v] if isinstance(v, R) and v.kind == "val" and "pairs" in v.fields else []
 
 
-def admits(t: V, v: V) -> bool:
-    """C04: v is a member of t"""
+def admits(t: V, v: V, empty_is_no_record: bool = False) -> bool:
+    """C04: v is a member of t.  With empty_is_no_record a TypedDict never admits an empty dict (C06: an empty dict is
+    never typed as a generated TypedDict - it must be covered by a Dict[...] alternative)."""
     if t == ANY:
         return True
     c = class_of(v)
@@ -255,24 +256,26 @@ def admits(t: V, v: V) -> bool:
         if args is None:
             return False
         if o == "Union":
-            return any(admits(a, v) for a in args)
+            return any(admits(a, v, empty_is_no_record) for a in args)
         if o == "Type":
             return c == "builtin:type" and (args[0] == v or args[0] == ANY)
         if o in ("List", "Set"):
             want = "builtin:list" if o == "List" else "builtin:set"
-            return c == want and all(admits(args[0], e) for e in elems_of(v))
+            return c == want and all(admits(args[0], e, empty_is_no_record) for e in elems_of(v))
         if o == "Tuple":
             es = elems_of(v)
-            return c == "builtin:tuple" and len(es) == len(args) and all(admits(a, e) for a, e in zip(args, es))
+            return c == "builtin:tuple" and len(es) == len(args) and all(admits(a, e, empty_is_no_record) for a, e in zip(args, es))
         if o in ("Dict", "DefaultDict"):
             ok_c = c in (("builtin:dict", "mod:collections.defaultdict") if o == "Dict" else ("mod:collections.defaultdict",))
-            return ok_c and all(admits(args[0], k_) and admits(args[1], x) for k_, x in pairs_of(v))
+            return ok_c and all(admits(args[0], k_, empty_is_no_record) and admits(args[1], x, empty_is_no_record) for k_, x in pairs_of(v))
         return False
     if isinstance(t, R) and t.kind == "typeddict":
         if c != "builtin:dict":
             return False
         req, opt = dict(_items(t.fields["required"])), dict(_items(t.fields["optional"]))
         ps = pairs_of(v)
+        if empty_is_no_record and not ps:
+            return False
         keys = [k_ for k_, _ in ps]
         if not all(isinstance(k_, K) and isinstance(k_.v, str) for k_ in keys):
             return False
@@ -280,7 +283,7 @@ def admits(t: V, v: V) -> bool:
             return False
         for k_, x in ps:
             ft = req.get(k_, opt.get(k_))
-            if ft is None or not admits(ft, x):
+            if ft is None or not admits(ft, x, empty_is_no_record):
                 return False
         return True
     return False
@@ -446,6 +449,8 @@ def concrete_rules(ctx: Any, repo: Repo, tier: str, member: Optional[str] = None
         if limit:
             bad = limit_violations(t, k)
             ctx.check(not bad, limit, w, "TypedDicts appear only with a positive limit, with at least one and at most `limit` keys", construct=f"{lab}: {'; '.join(bad)}")
+            if admits(t, v):
+                ctx.check(admits(t, v, True), limit, w, "an empty dict is never typed as a generated TypedDict (a Dict[...] alternative covers it)", construct=lab)
     ws = f"{TY}.shrink_types"
     ks = (0, 2, 3) if tier == "thorough" else (0, 2)
     vals = [v for v, k, _ in rows if k == ks[0]]
@@ -471,6 +476,8 @@ def concrete_rules(ctx: Any, repo: Repo, tier: str, member: Optional[str] = None
             if limit:
                 bad = limit_violations(t1, k)
                 ctx.check(not bad, limit, ws, "merged TypedDicts stay within the limit", construct=f"{lab}: {'; '.join(bad)}")
+                if admits(t1, a) and admits(t1, b):
+                    ctx.check(admits(t1, a, True) and admits(t1, b, True), limit, ws, "after merging, an observed empty dict is still not typed as a generated TypedDict", construct=lab)
             if order:
                 t2 = merge(repo, (tb, ta), k)
                 t3 = merge(repo, (ta, tb, ta), k) if (m % 3 == 0 or tier != "thorough") else t1
